@@ -1095,4 +1095,74 @@ Section HeldSuarezCov.
     intros HT. rewrite (proj2 (hs_rates_homogeneous sigma cl)), (proj2 (hs_teq_homogeneous pk logp cl sl HT)).
     exact (proj2 (hs_nodal_tendencies_homogeneous 0 0 cl _ _ _ _)).
   Qed.
+
+  (** the power law and the logarithm are applied to the scale-invariant p/p0:
+      covariance of the complete equilibrium temperature for EVERY pair of
+      functions [pw], [lg] (nothing at all is assumed about them) *)
+  Theorem hs_teq_of_ps_covariant (pw lg : F -> F) sigma ps cl sl :
+    flt 0 kT -> kp <> 0 -> hp_p0 P <> 0 ->
+    hs_teq_of_ps pw lg P' sigma (kp * ps) cl sl = kT * hs_teq_of_ps pw lg P sigma ps cl sl.
+  Proof.
+    intros HT Hk Hp. unfold hs_teq_of_ps. rewrite (hs_p_over_p0_invariant sigma ps Hk Hp).
+    apply hs_teq_homogeneous. exact HT.
+  Qed.
 End HeldSuarezCov.
+
+(** positive scales have positive factors (ordered fields) *)
+Section PositiveScales.
+  Context {F : Type} {o : Ops F} {Oc : OrdFieldC o}.
+  Add Field FFsc7 : (field_c : FieldTh o).
+
+  Lemma npow_pos x k : flt 0 x -> flt 0 (npow x k).
+  Proof.
+    intros Hx. induction k as [|k IH]; cbn [npow]; [exact flt_0_1 | now apply fmul_pos_pos].
+  Qed.
+  Lemma zpow_pos x z : flt 0 x -> flt 0 (zpow x z).
+  Proof.
+    intros Hx. destruct z; cbn [zpow].
+    - exact flt_0_1.
+    - now apply npow_pos.
+    - apply finv_pos. now apply npow_pos.
+  Qed.
+  Definition scale_positive (s : @scale F) : Prop := flt 0 (sL s) /\ flt 0 (sT s) /\ flt 0 (sM s) /\ flt 0 (sK s).
+  Lemma scale_positive_nz s : scale_positive s -> scale_nz s.
+  Proof. intros (A & B & C & D). repeat split; now apply fpos_neq0. Qed.
+  Theorem factor_pos s d : scale_positive s -> flt 0 (factor s d).
+  Proof.
+    intros (A & B & C & D). unfold factor. repeat apply fmul_pos_pos; now apply zpow_pos.
+  Qed.
+  Lemma sinv_positive s : scale_positive s -> scale_positive (Scaling.sinv s).
+  Proof. intros (A & B & C & D). unfold scale_positive, Scaling.sinv; cbn. repeat split; now apply finv_pos. Qed.
+
+  Lemma nondim_as_factor s d x : scale_nz s -> nondim s d x = factor (Scaling.sinv s) d * x.
+  Proof.
+    intros Hs. unfold nondim. rewrite factor_sinv by exact Hs. field. now apply factor_nonzero.
+  Qed.
+
+  Lemma nondim_hs_as_scale_hs s P :
+    scale_nz s ->
+    nondim_hs s P = scale_hs (factor (Scaling.sinv s) d_pressure) (factor (Scaling.sinv s) d_rate) (factor (Scaling.sinv s) d_temp) P.
+  Proof.
+    intros Hs. unfold nondim_hs, scale_hs. now rewrite !(nondim_as_factor s _ _ Hs).
+  Qed.
+
+  (** Held-Suarez with non-dimensionalised inputs = non-dimensionalisation of
+      the SI values, for every positive scale and every [pw], [lg] *)
+  Theorem hs_nondim_commutes (pw lg : F -> F) s P sigma ps cl sl :
+    scale_positive s -> hp_p0 P <> 0 ->
+    hs_kv (nondim_hs s P) sigma = nondim s d_rate (hs_kv P sigma) /\
+    hs_kt (nondim_hs s P) sigma cl = nondim s d_rate (hs_kt P sigma cl) /\
+    hs_p_over_p0 (nondim_hs s P) sigma (nondim s d_pressure ps) = hs_p_over_p0 P sigma ps /\
+    hs_teq_of_ps pw lg (nondim_hs s P) sigma (nondim s d_pressure ps) cl sl
+      = nondim s d_temp (hs_teq_of_ps pw lg P sigma ps cl sl).
+  Proof.
+    intros Hpos Hp0. pose proof (scale_positive_nz s Hpos) as Hs.
+    pose proof (sinv_nz s Hs) as Hsi.
+    rewrite (nondim_hs_as_scale_hs s P Hs), !(nondim_as_factor s _ _ Hs).
+    destruct (hs_rates_homogeneous (factor (Scaling.sinv s) d_pressure) (factor (Scaling.sinv s) d_rate) (factor (Scaling.sinv s) d_temp) P sigma cl) as [R1 R2].
+    split; [exact R1|]. split; [exact R2|]. split.
+    - apply hs_p_over_p0_invariant; [now apply factor_nonzero | exact Hp0].
+    - apply hs_teq_of_ps_covariant; [apply factor_pos; now apply sinv_positive | now apply factor_nonzero | exact Hp0].
+  Qed.
+End PositiveScales.
+
